@@ -1,4 +1,6 @@
 import Iauthd.Proto.Props
+import Iauthd.Proto.Count10
+import Iauthd.Properties.C01
 /-
   Property C10 — "Request bookkeeping balances over any history" (model part).
   The table grows only by an announcement (by one, or not at all when a live id is replaced)
@@ -6,6 +8,13 @@ import Iauthd.Proto.Props
   reply prints exactly the table size; ids stay unique (`Inv`), so the size is the number of
   live clients.  Timers are part of the request record (`timer`), so they go with it; the
   real libevent timers are counted by the harness (runtime facet).
+
+  **`C10_history`**: for every history of input chunks and timer expiries from the started daemon,
+  the number of live instances the reader of both channels counts (`Spec01.T1.n`: plus one when an
+  announcement opens an instance under an id that had none, minus one when `D`, `T` or a verdict
+  closes one - "announced and neither withdrawn, reported registered nor seen decided;
+  re-announcing a live id replaces it") is the size of the request table, and that size is the
+  figure a statistics reply prints at that point (`C10_in_use_figure`).
 -/
 namespace Iauthd.Properties
 open Iauthd Iauthd.Proto
@@ -27,5 +36,58 @@ theorem C10_ids_unique (hasXq hasClass : Bool) (hdep : hasClass = true → hasXq
       ∧ (ids s'.reqs).Pairwise (· < ·) :=
   let ⟨s', outs, h, hi, _⟩ := runOps_total_inv ops _ (inv_init hasXq hasClass hdep)
   ⟨s', outs, h, hi.sorted⟩
+
+
+/-- the start state satisfies the table invariant -/
+theorem start_inv (hasXq hasClass : Bool) (hdep : hasClass = true → hasXq = true) (lim : Limits) (hacc : 0 < lim.account)
+    (cfg : Config) : Inv (applyConfig (bootState hasXq hasClass lim) {} cfg true).1 := by
+  have hreqs : (applyConfig (bootState hasXq hasClass lim) {} cfg true).1.reqs = [] := by
+    rw [applyConfig_reqs]; rfl
+  have hst : (applyConfig (bootState hasXq hasClass lim) {} cfg true).1.hasXq = hasXq ∧
+      (applyConfig (bootState hasXq hasClass lim) {} cfg true).1.hasClass = hasClass ∧
+      (applyConfig (bootState hasXq hasClass lim) {} cfg true).1.lim = lim := by
+    unfold applyConfig
+    dsimp only
+    split <;> split <;> simp [servicesChanged, classChanged, bootState]
+  refine ⟨(by rw [hreqs]; simp [ids]), (by intro r hr; rw [hreqs] at hr; cases hr), ?_, ?_⟩
+  · rw [hst.1, hst.2.1]; exact hdep
+  · rw [hst.2.2]; exact hacc
+
+/-- **C10 (the figure)**: after any history, the reader's count of live instances is the size of
+    the request table — the number every `S iauth` line prints. -/
+theorem C10_history (hasXq hasClass : Bool) (hdep : hasClass = true → hasXq = true) (lim : Limits) (hl : LimOK lim)
+    (hacc : 0 < lim.account) (cfg : Config) (hc : ConfigOK cfg)
+    (ops : List Op) (s' : State) (trs : List (List Step1))
+    (hrun : runTrace (applyConfig (bootState hasXq hasClass lim) {} cfg true).1 ops = .ok (s', trs))
+    (hann : NoAnnM1 trs.flatten) :
+    (Spec01.run {} trs.flatten).n = s'.reqs.length ∧
+    collectStats.reportStatsCore s' =
+      sendRaw (b "S iauth :" ++ decNat s'.stats.reqAllocs ++ b "-" ++ decNat s'.stats.reqFrees ++ b " reqs alloc, "
+        ++ decNat (Spec01.run {} trs.flatten).n ++ b " in use; " ++ decNat s'.stats.dataFrees ++ b " data frees") := by
+  have h0 := (C09_start hasXq hasClass lim hl cfg hc [] Clean.nil).1
+  have hreqs : (applyConfig (bootState hasXq hasClass lim) {} cfg true).1.reqs = [] := by
+    rw [applyConfig_reqs]; rfl
+  have hsim : Sim (applyConfig (bootState hasXq hasClass lim) {} cfg true).1 {} := by
+    refine ⟨?_, ?_, rfl⟩
+    · intro id; rw [hreqs]; rfl
+    · intro id r i hr; rw [hreqs] at hr; cases hr
+  have hm : NoM1 (applyConfig (bootState hasXq hasClass lim) {} cfg true).1 := by
+    intro r hr; rw [hreqs] at hr; cases hr
+  obtain ⟨_, sim', _⟩ := runTrace_sim ops _ {} h0 hsim hm s' trs hrun hann
+  -- the table invariant at the end of the run
+  have hinv : Inv s' := by
+    obtain ⟨s2, outs, hr2, hi2, _⟩ := runOps_total_inv ops _ (start_inv hasXq hasClass hdep lim hacc cfg)
+    rw [runTrace_runOps, hrun] at hr2
+    simp only [Except.map, Except.ok.injEq, Prod.mk.injEq] at hr2
+    rw [hr2.1]; exact hi2
+  have hcnt := count_eq sim' (Fin1.run trs.flatten Fin1.init) hinv
+  exact ⟨hcnt, by rw [hcnt]; exact stats_in_use s'⟩
+
+/-- non-vacuity: the count goes up with an announcement, not with a re-announcement, and down with
+    `D` from the server or a verdict from the daemon -/
+example : (Spec01.run {} [(some exAnn, [])]).n = 1 := by decide
+example : (Spec01.run {} [(some exAnn, []), (some exAnn, [])]).n = 1 := by decide
+example : (Spec01.run {} [(some exAnn, []), (some (b "5 D"), [])]).n = 0 := by decide
+example : (Spec01.run {} [(some exAnn, []), (some (b "6 C 1.2.3.4 1 1.1.1.1 2"), []), (none, [exD])]).n = 1 := by decide
 
 end Iauthd.Properties
